@@ -40,6 +40,7 @@ def run(rep, tier):
     freshness(rep, F)
     typestate(rep, F)
     cached_fields(rep, F)
+    candidate_pairs(rep, F)
 
 
 def freshness(rep, F):
@@ -273,3 +274,82 @@ def cached_fields(rep, F):
             rep.bad("R17.5", "unprepared-intersector", "RelateOperation::new does not use RobustLineIntersector::new()", where=fn.loc())
     except (KeyError, Unanalysable) as e:
         rep.bad("R17.5", "anchor", str(e))
+
+
+def candidate_pairs(rep, F, rule="R17.4"):
+    """The edge-set intersector that both plain and prepared operands are noded by: every candidate pair the segment index reports is handed to
+    SegmentIntersector::add_intersections with the edges of the graph it came from - between two graphs without any filter (whether or not
+    the two graphs share one cached index, e.g. prepared.relate(&prepared)), within one graph with the single documented exception
+    `same edge and not check_for_self_intersecting_edges`.  A pair that is filtered is an intersection that is never noded."""
+    from ..symex import bare
+    rep.rule(rule, "RStarEdgeSetIntersector: between two graphs every candidate pair reaches add_intersections(edges_0[s0.edge_idx], s0.segment_idx, edges_1[s1.edge_idx], s1.segment_idx) unconditionally; "
+                   "within one graph a pair is skipped only when it is the same edge and self-intersections are not checked")
+    NEXT = r"next\((?:havoc\()*into_iter\(intersection_candidates_with_other_tree\(.*?\)\)\)*\)"
+    for nm, g0, g1 in (("compute_intersections_between_sets", "a2", "a3"), ("compute_intersections_within_set", "a2", "a2")):
+        key = "candidates:" + nm
+        try:
+            fn = F.one(r"RStarEdgeSetIntersector as .*EdgeSetIntersector<F>>::%s$" % nm, crates=("geo",))
+            paths = opaque(F, loop_bound=2, max_paths=5000).run(fn)
+        except (KeyError, Unanalysable) as e:
+            rep.bad(rule, key + ":unanalysable", str(e))
+            continue
+        bad = None
+        n_calls = 0
+        for p in paths:
+            if p.kind == "panic":
+                continue
+            items = []          # (iterator-state string, skip-allowed?)
+            flags = {}
+            for t, v in p.pc:
+                b = bare(t)
+                m = re.match(r"^discr\((%s)\)$" % NEXT, b)
+                if m:
+                    if v == 1:
+                        items.append(m.group(1))
+                    continue
+                if nm.endswith("within_set"):
+                    if b == "a3":
+                        flags["check"] = v
+                        continue
+                    m = re.match(r"^\(\((.*) as Some\)\.0\.0\.edge_idx (==|!=) \((.*) as Some\)\.0\.1\.edge_idx\)$", b)
+                    if m and m.group(1) == m.group(3):
+                        same = (v == 1) if m.group(2) == "==" else (v == 0)
+                        flags[m.group(1)] = same
+                        continue
+                bad = ("filter", "%s decides on `%s`: candidate pairs reported by the segment index can be dropped before they are intersected" % (nm, b[:160]))
+                break
+            if bad:
+                break
+            calls = [c for c in calls_of(p) if c[1].endswith("::add_intersections")]
+            want = []
+            for it in items:
+                if nm.endswith("within_set") and flags.get("check") == 0 and flags.get(it) is True:
+                    continue
+                if nm.endswith("within_set") and flags.get("check") == 0 and it not in flags:
+                    continue        # the path was cut / the comparison not reached
+                want.append(it)
+            if p.kind == "cut":
+                # the last item of a cut path may not have been processed yet
+                if len(calls) < len(want) - 1:
+                    bad = ("missing", "%d candidate pairs but %d calls of add_intersections" % (len(want), len(calls)))
+                    break
+            elif len(calls) != len(want):
+                bad = ("missing", "%d candidate pairs to intersect but %d calls of add_intersections [%s]" % (len(want), len(calls), show_pc(p.pc)[:200]))
+                break
+            for c, it in zip(calls, want):
+                a = [bare(x) for x in c[2]]
+                exp = ["deref(edges(%s)[(%s as Some).0.0.edge_idx])" % (g0, it), "(%s as Some).0.0.segment_idx" % it,
+                       "deref(edges(%s)[(%s as Some).0.1.edge_idx])" % (g1, it), "(%s as Some).0.1.segment_idx" % it]
+                norm = lambda s_: s_.replace("&", "").replace("*", "")
+                if [norm(x) for x in a[1:5]] != [norm(x) for x in exp]:
+                    bad = ("operands", "add_intersections is called with (%s), expected the candidate's own (edges_0[s0.edge_idx], s0.segment_idx, edges_1[s1.edge_idx], s1.segment_idx)" % ", ".join(x[-60:] for x in a[1:5]))
+                    break
+                n_calls += 1
+            if bad:
+                break
+        if bad:
+            rep.bad(rule, key + ":" + bad[0], bad[1], where=fn.loc())
+        elif n_calls < 3:
+            rep.bad(rule, key + ":floor", "only %d add_intersections calls seen" % n_calls, where=fn.loc())
+        else:
+            rep.ok(rule, "%s[%d paths, %d calls]" % (key, len(paths), n_calls))
